@@ -25,8 +25,15 @@ type jActivate struct {
 	EverDeact  bool
 	Since      time.Time
 	Now        time.Time
-	PenaltyA   time.Duration
-	PenaltyB   time.Duration
+	PenaltyA   uint64 // inactive_penalty_duration (nanoseconds) before the block's parameter changes
+	PenaltyB   uint64 // ... and after them
+}
+
+// TooEarly reports whether less than the penalty (an unsigned number of nanoseconds, whatever its magnitude) has passed
+// between the deactivation and now.
+func (a jActivate) TooEarly(penalty uint64) bool {
+	el := a.Now.Sub(a.Since)
+	return el < 0 || uint64(el) < penalty
 }
 
 type jDeact struct {
@@ -99,7 +106,7 @@ func (s *FeedsShadow) Advance(e *Env, blk *world.BlockRecord) {
 		for _, msg := range tx.Intent.Msgs {
 			if am, isAct := msg.(*oracletypes.MsgActivate); isAct && len(tx.Intent.Msgs) == 1 && !infraReject(tx) {
 				s.JActivate = append(s.JActivate, jActivate{Tx: tx, Val: am.Validator, WasActive: s.Active[am.Validator], EverDeact: s.EverDeact[am.Validator], Since: s.Since[am.Validator], Now: blk.Time,
-					PenaltyA: time.Duration(s.OracleParams.InactivePenaltyDuration), PenaltyB: time.Duration(paramsAfter.InactivePenaltyDuration)})
+					PenaltyA: s.OracleParams.InactivePenaltyDuration, PenaltyB: paramsAfter.InactivePenaltyDuration})
 				if tx.OK() {
 					s.Active[am.Validator] = true
 					s.Since[am.Validator] = blk.Time
